@@ -333,6 +333,14 @@ pub fn exec_case(case: &Value, want: &BTreeSet<String>) -> RunOutcome {
     }
     probe(&mut ro, "back_to_back_connection_used", back_to_back);
     probe(&mut ro, "dead_heads_forbidden", inst.forbid_dh);
+    probe(&mut ro, "tour_with_two_slots", sd.vehicles.iter().any(|v| v.acts.iter().filter(|&&a| inst.acts[a].kind == ActKind::Maint).count() >= 2));
+    {
+        let mut at: BTreeMap<usize, usize> = BTreeMap::new();
+        for d in &inst.depots {
+            *at.entry(d.loc).or_insert(0) += 1;
+        }
+        probe(&mut ro, "several_depots_at_one_location", at.values().any(|n| *n >= 2));
+    }
     let max_cycles = o.cycles.iter().map(|(_, c)| c.iter().filter(|x| !x.is_empty()).count()).max().unwrap_or(0);
     probe(&mut ro, "two_or_more_cycles_for_a_type", max_cycles >= 2);
     probe(&mut ro, "cycle_of_length_one", o.cycles.iter().any(|(_, c)| c.iter().any(|x| x.len() == 1)));
